@@ -928,6 +928,8 @@ func (w *c10World) apply(i int, op *c10Op) (err error) {
 		return w.reload(op)
 	case "reload-reuse":
 		return w.reloadReuse(i, op)
+	case "rollback":
+		return w.rollback()
 	default:
 		return fmt.Errorf("unknown op %q", op.Kind)
 	}
@@ -1010,6 +1012,29 @@ func (w *c10World) reload(op *c10Op) error {
 	w.prog, w.cfg = op.Prog, op.Cfg
 	w.gen++
 	return nil
+}
+
+// rollback: a staged reload whose new generation committed its datapath (which cleared and
+// refilled the shared domain_routing_map from ITS tracker) and then failed to become ready:
+// cmd/run.go closes the new generation and calls RebuildReloadDatapath on the old one, which keeps
+// serving with its own controller, core and tracker. Transcribed from RebuildReloadDatapath after
+// the routing rebuild (BuildKernspace needs real maps): tracker.clearAndForget around
+// clearReloadDomainRoutingMap (modelled by clearing S), CloneDnsCache, pendingDnsReloadCache =
+// clone, replayDnsReloadCache.
+func (w *c10World) rollback() error {
+	w.env.gate.set(false)
+	w.gateLeft = 0
+	w.held = nil
+	if err := w.barrier(w.ctrl); err != nil {
+		return err
+	}
+	if err := w.core.domainRouting.clearAndForget(func() error { w.env.shadow.clear(); return nil }); err != nil {
+		return err
+	}
+	w.cp.pendingDnsReloadCache = w.cp.CloneDnsCache()
+	w.cp.replayDnsReloadCache()
+	w.count("rollbacks_after_failed_staged_reload", 1)
+	return w.barrier(w.ctrl)
 }
 
 // reloadReuse: the staged same-port reload of cmd/run.go when the dns section is
@@ -1253,6 +1278,9 @@ func c10GenHist(r *rand.Rand, nprogs int) *c10Hist {
 			op = c10Op{Kind: "trigger", Name: n, Qtype: q, Scope: s, Delta: []int{0, 2, 61, 61, 61, 300}[r.IntN(6)], Delay: delay(), Flag: r.IntN(2) == 0}
 		default:
 			op = c10Op{Kind: "reload", Prog: r.IntN(nprogs), Cfg: r.IntN(len(c10Cfgs)), Delay: delay(), Flag: r.IntN(2) == 0}
+			if r.IntN(4) == 0 {
+				op = c10Op{Kind: "rollback"}
+			}
 		}
 		h.Ops = append(h.Ops, op)
 	}
